@@ -156,6 +156,17 @@ theorem C08_chunk_indep (chk : Bool) (fuel : Nat) (s₁ s₂ : Sched) (size₁ s
   obtain ⟨o₂, e₂, _, x₂⟩ := decodeOver_exact chk fuel s₂ size₂ h₂ (heq ▸ hb)
   rw [e₁, e₂, x₁ hnt, x₂ (heq ▸ hnt), heq]
 
+/-- … and the same for a decoder whose read buffer has been used before (`Decoder.Reset` re-slices or re-allocates the
+buffer of the previous reader: whatever state and contents `b₁`, `b₂` it was left in) -/
+theorem C08_chunk_indep_reused_buffer (chk : Bool) (fuel : Nat) (b₁ b₂ : RB) (s₁ s₂ : Sched) (size₁ size₂ : Int)
+    (h₁ : Clean s₁) (h₂ : Clean s₂) (hb : IsBytes (bytesOf s₁)) (heq : bytesOf s₁ = bytesOf s₂) :
+    ∃ o₁ o₂, runRB (decodeLoop chk fuel true []) (b₁.reset s₁ size₁) = .done o₁ ∧
+      runRB (decodeLoop chk fuel true []) (b₂.reset s₂ size₂) = .done o₂ ∧ o₁.merge = o₂.merge ∧
+      (truncated (decodeLoop chk fuel true []) (bytesOf s₁) = false → o₁ = o₂) := by
+  obtain ⟨o₁, e₁, m₁, x₁⟩ := runRB_refines Out.merge _ (good_decodeLoop chk fuel true []) _ _ (reset_inv b₁ s₁ size₁) h₁ hb
+  obtain ⟨o₂, e₂, m₂, x₂⟩ := runRB_refines Out.merge _ (good_decodeLoop chk fuel true []) _ _ (reset_inv b₂ s₂ size₂) h₂ (heq ▸ hb)
+  exact ⟨o₁, o₂, e₁, e₂, by rw [m₁, m₂, heq], fun hnt => by rw [x₁ hnt, x₂ (heq ▸ hnt), heq]⟩
+
 /-- the witness of KF-C08-1: a 24-byte stream (14-byte header, one definition record, first byte of the file CRC) -/
 def kfBytes : Bytes := [14, 32, 0, 0, 9, 0, 0, 0, 46, 70, 73, 84, 0, 0,  64, 0, 0, 0, 0, 1, 0, 1, 2,  7]
 def kfOneByte : Sched := kfBytes.map fun b => ⟨[b], none⟩
